@@ -595,6 +595,24 @@ fn scn_lifecycle<S: MdkStorageProvider>(cx: &mut Cx, mk: &mut dyn FnMut(&'static
             cx.val("alice.get_messages[0]", "record", m);
         }
     }
+    // group image (MIP-01): prepare, decrypt with and without hash verification, wrong key
+    {
+        use mdk_core::extension::group_image::{decrypt_group_image, prepare_group_image_for_upload};
+        use mdk_storage_traits::Secret;
+        if let Some(up) = cx.call("prepare_group_image_for_upload", prepare_group_image_for_upload(&tiny_png(), "image/png")) {
+            cx.canary("image_key", &up.image_key[..]);
+            cx.canary("image_nonce", &up.image_nonce[..]);
+            cx.canary("image_key", &up.image_upload_key[..]);
+            cx.val("GroupImageUpload", "result", &up);
+            cx.call("decrypt_group_image(ok)", decrypt_group_image(&up.encrypted_data, Some(&up.encrypted_hash), &up.image_key, &up.image_nonce));
+            cx.call("decrypt_group_image(legacy, no hash)", decrypt_group_image(&up.encrypted_data, None, &up.image_key, &up.image_nonce));
+            cx.call("decrypt_group_image(wrong hash)", decrypt_group_image(&up.encrypted_data, Some(&rnd::<32>()), &up.image_key, &up.image_nonce));
+            let wrong: [u8; 32] = rnd();
+            cx.canary("image_key", &wrong);
+            cx.call("decrypt_group_image(wrong key)", decrypt_group_image(&up.encrypted_data, None, &Secret::new(wrong), &up.image_nonce));
+        }
+        cx.call("prepare_group_image_for_upload(bad)", prepare_group_image_for_upload(b"nope", "image/png").map(|_| ()));
+    }
     cx.call("alice.get_members", a.mdk.get_members(gid));
     cx.call("alice.get_relays", a.mdk.get_relays(gid));
     if let Some(t) = cx.call("alice.get_ratchet_tree_info", a.mdk.get_ratchet_tree_info(gid)) {
@@ -1006,6 +1024,10 @@ fn scn_sqlite_open(cx: &mut Cx) {
         cx.call("sqlite.new(keyring, other id on existing db)", MdkSqliteStorage::new(&kpath, svc, "mdk.db.key.other").map(|_| ()));
         cx.call("sqlite.new_with_key(on keyring db, wrong key)", MdkSqliteStorage::new_with_key(&kpath, EncryptionConfig::new(k2)).map(|_| ()));
     }
+    cx.call("keyring.get_db_key", mdk_sqlite_storage::keyring::get_db_key(svc, id).map(|_| ()));
+    cx.call("keyring.delete_db_key", mdk_sqlite_storage::keyring::delete_db_key(svc, id));
+    cx.call("keyring.delete_db_key(again)", mdk_sqlite_storage::keyring::delete_db_key(svc, id));
+    cx.call("sqlite.new(keyring, key deleted)", MdkSqliteStorage::new(&kpath, svc, id).map(|_| ()));
     cx.call("sqlite.new(keyring, on plain db)", MdkSqliteStorage::new(&plain, svc, "mdk.db.key.plain").map(|_| ()));
     cx.flush();
 }
@@ -1064,8 +1086,10 @@ fn scn_hydration(cx: &mut Cx, foreign: Option<&str>) {
     }
     // second restart, then a stale commit for a hydrated epoch
     drop(alice);
+    std::thread::sleep(std::time::Duration::from_millis(1100));
     let Some(st) = open(cx) else { return };
-    alice = Client { name: "alice", keys: Keys::generate(), mdk: MDK::builder(st).with_config(MdkConfig { epoch_snapshot_retention: 1, ..Default::default() }).build() };
+    alice = Client { name: "alice", keys: Keys::generate(), mdk: MDK::builder(st).with_config(MdkConfig { epoch_snapshot_retention: 1,
+                snapshot_ttl_seconds: 0, ..Default::default() }).build() };
     if let Some(m) = cx.call("bob.create_message", bob.mdk.create_message(&gid, rumor(&bob.keys, "after restart"))) {
         deliver(cx, &alice, "app-after-restart", &m);
     }
